@@ -127,6 +127,7 @@ func (s *Syncer) SendOnce(ctx context.Context, env *lmdb.Env) (txnID header.TxnI
 		// We always return LMDB reading errors, as these are really unexpected
 		return 0, err
 	}
+	verifYield(s, "send.txnDone", txnID)
 	tDumped := time.Now()
 
 	// If no actual changes were made, LMDB will not record the transaction
@@ -147,6 +148,7 @@ func (s *Syncer) SendOnce(ctx context.Context, env *lmdb.Env) (txnID header.TxnI
 		txnID = header.TxnID(info.LastTxnID)
 	}
 	msg.Meta.LmdbTxnID = int64(txnID)
+	verifYield(s, "send.infoRead", txnID)
 
 	// Return before actually writing a snapshot, but after the txnID was adjusted
 	// when we are in receive-only mode.
@@ -224,6 +226,7 @@ func (s *Syncer) SendOnce(ctx context.Context, env *lmdb.Env) (txnID header.TxnI
 
 		// Signal success to health tracker
 		s.storageStoreHealth.AddSuccess()
+		verifYield(s, "send.stored", name)
 
 		break
 	}
@@ -263,6 +266,7 @@ func (s *Syncer) SendOnce(ctx context.Context, env *lmdb.Env) (txnID header.TxnI
 	// Tell the cleaner which snapshots made by other instances have been
 	// incorporated in the last snapshot that we sent.
 	s.cleaner.SetCommitted(s.lastByInstance)
+	verifYield(s, "send.committed", txnID)
 
 	return txnID, nil
 }
